@@ -31,7 +31,7 @@ def run(ctx):
             else R.gen_cluster_parent(rng, "k%d" % k)
         if len(p.hosts()) <= 40 and len(p.pairs) <= (700 if quick else 1700):
             plats.append(p)
-    R.run_check(ctx, plats, chunk=8 if quick else 12,
+    R.run_check(ctx, plats, chunk=2 if quick else 6,
                 nontrivial=lambda plat, s, d: plat.zone_of_host(s) is not plat.zone_of_host(d),
                 rule="platforms = the documentation's example + 3 nested Star zones + seeded random nested platforms "
                      "(zone kinds Full, Floyd, Dijkstra, DijkstraCache, Star, Vivaldi, Wifi, Empty, Torus, FatTree, "
